@@ -191,6 +191,128 @@ fn check_instants(k: usize, cfg: &Cfg, log: &mut Log) {
   }
 }
 
+/// (e) histories: a seeded sequence of 4..14 term constructions (raw index -30..53 on the years around y0, by
+/// name, by stepping the previous result) interleaved with day and instant look-ups on the same years, all on one
+/// thread; every answer must be the one the table gives, whatever was constructed just before
+fn term_history(i: usize, cfg: &Cfg, log: &mut Log) {
+  let t = terms();
+  let c = cal();
+  let mut rng = Rng::new(mix(cfg.seed, i as u64 ^ 0x2C06));
+  let y0 = rng.range(3, 9995);
+  let nops = rng.range(4, 14);
+  let key = format!("seq{}_y{}", i, y0);
+  // draw the ops first so that the sequence does not depend on what the library returns
+  #[derive(Clone, Copy, Debug)]
+  enum Op {
+    Index(i64, i64),
+    Name(i64, i64),
+    Step(i64),
+    Day(i64),
+    Instant(i64),
+  }
+  let mut ops: Vec<Op> = vec![];
+  let mut follow: Option<i64> = None;
+  for _ in 0..nops {
+    let y = match follow.take() {
+      Some(y) => y,
+      None => y0 + rng.range(-1, 1),
+    };
+    match rng.below(6) {
+      0 | 1 => {
+        let raw = if rng.below(2) == 0 { rng.range(-30, 53) } else { rng.range(0, 23) };
+        if (raw < 0 || raw > 23) && rng.below(3) != 0 {
+          follow = Some(y);
+        }
+        ops.push(Op::Index(y, raw));
+      }
+      2 => ops.push(Op::Name(y, rng.range(0, 23))),
+      3 => ops.push(Op::Step(rng.range(-30, 30))),
+      4 => ops.push(Op::Day(c.year_first(y) + rng.range(0, 354))),
+      _ => ops.push(Op::Instant((c.year_first(y) + rng.range(0, 354)) * 86400 + rng.range(0, 86399))),
+    }
+  }
+  let r = guard(|| {
+    let mut out: Vec<(String, String)> = vec![];
+    let mut last: Option<(SolarTerm, i64)> = None;
+    let mut answered = 0u64;
+    let mut wrapped = 0u64;
+    for (n, op) in ops.iter().enumerate() {
+      let judge_term = |st: &SolarTerm, k: i64, out: &mut Vec<(String, String)>| {
+        let want = t.v[k as usize];
+        if st.get_year() as i64 != want.y || st.get_index() as i64 != want.i || st.get_julian_day().get_day() != want.jd {
+          out.push((format!("op {} {:?}: ({}, {}) jd {}", n, op, st.get_year(), st.get_index(), st.get_julian_day().get_day()), format!("({}, {}) jd {}", want.y, want.i, want.jd)));
+        }
+      };
+      match *op {
+        Op::Index(y, raw) => {
+          let k = Terms::idx(y, 0) as i64 + raw;
+          let st = SolarTerm::from_index(y as isize, raw as isize);
+          judge_term(&st, k, &mut out);
+          if raw < 0 || raw > 23 {
+            wrapped += 1;
+          }
+          last = Some((st, k));
+          answered += 1;
+        }
+        Op::Name(y, ix) => {
+          let k = Terms::idx(y, ix) as i64;
+          let st = SolarTerm::from_name(y as isize, SOLAR_TERM_NAMES[ix as usize]);
+          judge_term(&st, k, &mut out);
+          last = Some((st, k));
+          answered += 1;
+        }
+        Op::Step(s) => {
+          if let Some((st, k)) = last.take() {
+            let nx = st.next(s as isize);
+            judge_term(&nx, k + s, &mut out);
+            last = Some((nx, k + s));
+            answered += 1;
+          }
+        }
+        Op::Day(dn) => {
+          if let Some(g) = t.governing_day(dn) {
+            let g = t.v[g];
+            let td = sd_of_dn(dn).get_term_day();
+            let st = td.get_solar_term();
+            let got = (st.get_year() as i64, st.get_index() as i64, td.get_day_index() as i64, st.get_julian_day().get_day());
+            if got != (g.y, g.i, dn - g.dn, g.jd) {
+              out.push((format!("op {} day {}: term ({}, {}) day index {} jd {}", n, cal::fmt_dn(dn), got.0, got.1, got.2, got.3), format!("term ({}, {}) day index {} jd {}", g.y, g.i, dn - g.dn, g.jd)));
+            }
+            answered += 1;
+          }
+        }
+        Op::Instant(a) => {
+          if let Some(gi) = t.governing_sec(a) {
+            let g = t.v[gi];
+            let near = a - g.sec < 2 || (gi + 1 < t.v.len() && t.v[gi + 1].sec - a < 2);
+            if !near {
+              let st = st_of_abs(a).get_term();
+              if (st.get_year() as i64, st.get_index() as i64) != (g.y, g.i) || st.get_julian_day().get_day() != g.jd {
+                out.push((format!("op {} instant {}: term ({}, {}) jd {}", n, fmt_abs(a), st.get_year(), st.get_index(), st.get_julian_day().get_day()), format!("term ({}, {}) jd {}", g.y, g.i, g.jd)));
+              }
+              answered += 1;
+            }
+          }
+        }
+      }
+    }
+    (out, answered, wrapped)
+  });
+  log.ev(1);
+  log.nt(1);
+  match r {
+    Ok((v, answered, wrapped)) => {
+      log.count("history.sequences", 1);
+      log.count("history.answers_judged", answered);
+      log.count("history.constructions_with_an_index_outside_0_23", wrapped);
+      if let Some((o, e)) = v.into_iter().next() {
+        log.violate(format!("C06/history/{}", key), "a sequence of term constructions and look-ups on one thread", format!("{} ops {:?}", key, ops), o, e);
+      }
+    }
+    Err(msg) => log.violate(format!("C06/panic-history/{}", key), "a sequence of term constructions and look-ups on one thread", format!("{} ops {:?}", key, ops), format!("panic: {}", msg), "no panic".into()),
+  }
+}
+
 pub fn run(cfg: &Cfg) -> (Log, Meta) {
   let mut log = Log::new();
   if let Err(e) = cal::self_test() {
@@ -245,6 +367,10 @@ pub fn run(cfg: &Cfg) -> (Log, Meta) {
         check_instants(k, cfg, l);
       }
     }));
+    // (e)
+    log.merge(par_range(cfg.tier.pick(20_000usize, 400_000usize), 100, |i, l| term_history(i, cfg, l)));
+    log.floor("history.answers_judged", cfg.tier.pick(100_000, 2_000_000));
+    log.floor("history.constructions_with_an_index_outside_0_23", cfg.tier.pick(10_000, 200_000));
     log.floor("day.term_days_seen", cfg.tier.pick(5_000, 200_000));
     log.floor("day.index_15_or_16_seen", cfg.tier.pick(1_000, 40_000));
     log.floor("instant.second_before_term", cfg.tier.pick(5_000, 200_000));
@@ -254,7 +380,7 @@ pub fn run(cfg: &Cfg) -> (Log, Meta) {
   log.floor("term.step_checks", cfg.tier.pick(2_000_000, 20_000_000));
   let meta = Meta {
     rule: format!(
-      "all {} terms of years 0..10000 enumerated (order, 14.6-15.8 d spacing incl. year joins); every term of years 1..9999: parity, name lookup, index normalisation, next(n) for 0,+-1,+-2,+-23..25 and one seeded-random n, and the full window -50..50,+-240,+-2400 on {} years; day->(term, index) for every civil day of {} years{}; instants: second before/of/after every term instant, one random instant and the day edges per term of the same years. Non-trivial = year joins, term days (index 0), indices 15/16, the three seconds around each term instant (counted).",
+      "all {} terms of years 0..10000 enumerated (order, 14.6-15.8 d spacing incl. year joins); every term of years 1..9999: parity, name lookup, index normalisation, next(n) for 0,+-1,+-2,+-23..25 and one seeded-random n, and the full window -50..50,+-240,+-2400 on {} years; day->(term, index) for every civil day of {} years{}; instants: second before/of/after every term instant, one random instant and the day edges per term of the same years; histories: {} seeded single-thread sequences of 4..14 operations (construction by raw index -30..53 / by name / by stepping the previous result, day and instant look-ups on the same three years; an out-of-range construction is usually followed by an operation on the same raw year) - every answer vs the table. Non-trivial = year joins, term days (index 0), indices 15/16, the three seconds around each term instant (counted).",
       t.v.len(),
       full_steps_years.len(),
       match cfg.tier {
@@ -264,7 +390,8 @@ pub fn run(cfg: &Cfg) -> (Log, Meta) {
       match cfg.tier {
         Tier::Thorough => " (exhaustive)",
         Tier::Quick => " (years = seed mod 20, 1-30, 1570-1600, 3430-3445, 7260-7290, 9990-9999)",
-      }
+      },
+      cfg.tier.pick(20_000, 400_000)
     ),
     assumptions: vec![
       "term instants are the library's own (C05 checks the astronomy); the oracle only decides which of them governs a day/instant".into(),
